@@ -72,12 +72,11 @@ Fixpoint copy_tree (src out : files) : option files :=
     end
   end.
 
-(* ---------- fs::list_files: the filter looks at every component of the path it is given, i.e.
-   the ABSOLUTE one (DESIGN F10): if the walked root itself lies below a directory named
-   .agentpack or .git, nothing is listed. ---------- *)
+(* ---------- fs::list_files: regular files whose path RELATIVE to the walked root has no
+   .agentpack / .git component (since the fix of DESIGN F10, commit a2bce3b; before it the filter
+   looked at the absolute path and listed nothing below ~/.agentpack) ---------- *)
 
-Definition list_files (abs_meta : bool) (t : files) : files :=
-  if abs_meta then [] else filter (fun e => negb (is_meta (fst e))) t.
+Definition list_files (t : files) : files := filter (fun e => negb (is_meta (fst e))) t.
 
 (* ---------- patch::list_patch_files ---------- *)
 
@@ -236,12 +235,11 @@ Inductive ometa := MAbsent | MKind (k : okind) | MInvalid.   (* .agentpack/overl
 
 Record layer := mkLayer {
   l_exists : bool;        (* overlay.dir.exists() *)
-  l_abs_meta : bool;      (* the overlay dir's absolute path has a .agentpack / .git component (F10) *)
   l_meta : ometa;
   l_files : files         (* every regular file below the overlay dir, path relative to it *)
 }.
 
-Definition no_layer : layer := mkLayer false false MAbsent [].
+Definition no_layer : layer := mkLayer false MAbsent [].
 
 Section WithGit.
   (* `git -c core.autocrlf=false apply --whitespace=nowarn <patch>` on the target file *)
@@ -296,7 +294,7 @@ Section WithGit.
     else match l_meta l with
          | MInvalid => Err EConfigInvalid
          | _ =>
-           let has_overrides := negb (is_empty_list (list_files (l_abs_meta l) (l_files l))) in
+           let has_overrides := negb (is_empty_list (list_files (l_files l))) in
            let patches := patch_entries (l_files l) in
            let has_patches := negb (is_empty_list patches) in
            if has_overrides && has_patches then Err EConfigInvalid
